@@ -346,7 +346,12 @@ def rule_e(repo, chk):
         chk.ob('e', h.ref, 'X-Forwarded-Host is read only for requests from a trusted gateway (or when no gateway list is configured)', q is None, loc(h, n.ast),
                path=pat.path_lines(q) if q else None, discr='forwarded-host-guard')
     # the domain used for routing defaults to the Host header
-    dom = [n for n in g.nodes if n.kind == 'stmt' and isinstance(n.ast, ast.Assign) and src(n.ast.targets[0]) == 'domain']
+    # the routing key: what the table of domains is asked for
+    dv_ = 'domain'
+    for c_ in calls_in(h.node):
+        if isinstance(c_.func, ast.Attribute) and c_.func.attr == 'get' and src(c_.func.value) == 'self.domains' and c_.args and isinstance(c_.args[0], ast.Name):
+            dv_ = c_.args[0].id
+    dom = [n for n in g.nodes if n.kind == 'stmt' and isinstance(n.ast, ast.Assign) and src(n.ast.targets[0]) == dv_]
     ok = any("'Host'" in src(n.ast.value) for n in dom)
     chk.ob('e', h.ref, 'without a trusted forwarded host the Host header decides the virtual host', ok, loc(h, h.node), discr='host-default')
     for n in dom:
